@@ -102,6 +102,30 @@ def run_case(ctx):
             ctx.sample = {"negative": kind, "tool": t.describe()}
             return
     else:
+        if src.flag("hist.on", 6):
+            # the same request was served before, in this process, on twins living at the same paths
+            import copy
+            import shutil
+            from ..choice import RandomSource
+            sub = RandomSource(src.draw("hist.seed", 0, 9999))
+            t2 = copy.copy(t)
+            t2.opts = dict(t.opts)
+            t2.m1, t2.m2 = t.m1.copy_meta(), t.m2.copy_meta()
+            for mm, tg in ((t2.m1, "a"), (t2.m2, "b")):
+                world.gen_layout(sub, mm, tag=tg)
+                world.fill_random(mm, sub.draw(tg + ".data", 0, 999999))
+            t2.prepare_root(root)
+            try:
+                t2.call(ctx, root)
+            except Exception:
+                pass
+            if src.flag("hist.keep_output"):
+                # ... and its OUTPUT is still there: the new result is written over it
+                shutil.rmtree(os.path.join(root, "data"))
+                ctx.probe("history.output_preexisting")
+            else:
+                shutil.rmtree(root)
+            ctx.probe("history.same-path")
         t.prepare_root(root)
         o = t.call(ctx, root)
     lay = t.layout_rel
